@@ -63,6 +63,12 @@ def gen(rng, tier):
                 qs.append(["simscore", a, t, rng.choice(c07.SIMS)])
         if rng.random() < 0.3:
             qs.append(["lens", rng.randrange(len(sizes))])
+        if len(cases) % 5 == 4:
+            # one similarity OBJECT shared by every thread (as a caller passing `similarity=sim` everywhere does), scoring
+            # different arrays of the pool at the same time
+            kind = rng.choice(["classic", "legacy", "bm25", "edismax_classic", "user_lennorm"])
+            qs = [["simscore", rng.randrange(len(sizes)), rng.choice(voc), kind] for _ in range(nth)]
+            qs += [["simscore", 0, rng.choice(voc), kind], ["simscore", len(sizes) - 1, rng.choice(voc), kind]]
         nact = 3 * len(qs)
         sched = [rng.randrange(len(qs)) for _ in range(nact)]
         cases.append({"docs": docs, "cache_gt": rng.choice([0, 1, 25]), "setup": setup, "queries": qs, "sched": sched,
@@ -78,6 +84,7 @@ def impl(case):
     from searcharray import SearchArray
     from searcharray.solr import edismax
     strs = [" ".join(K.tok_name(t) for t in d) for d in case["docs"]]
+    shared_sims = {k: c07._make_sim(k) for k in c07.SIMS}      # one object per kind, shared by all threads
 
     def build_pool():
         pool = [SearchArray.index(strs, cache_gt_than=case["cache_gt"], autowarm=False)]
@@ -105,9 +112,9 @@ def impl(case):
                 return ["okf", [round(float(x), 6) for x in s]]
             if q[0] == "simscore":
                 if q[3] == "edismax_classic":
-                    s, _ = edismax(pd.DataFrame({"f": arr}), q=K.tok_name(q[2]), qf=["f"], similarity=c07._make_sim(q[3]))
+                    s, _ = edismax(pd.DataFrame({"f": arr}), q=K.tok_name(q[2]), qf=["f"], similarity=shared_sims[q[3]])
                 else:
-                    s = arr.score(K.tok_name(q[2]), similarity=c07._make_sim(q[3]))
+                    s = arr.score(K.tok_name(q[2]), similarity=shared_sims[q[3]])
                 return ["okf", ["nan" if x != x else round(float(x), 6) for x in s]]
             if q[0] == "lens":
                 return ["ok", [K._intf(x) for x in arr.doclengths()]]
